@@ -72,7 +72,18 @@ def exact (walk : Bytes → Option Bytes) : Parser Bytes :=
   { parse := fun b => match walk b with | some [] => some b | _ => none, bytes := id }
 
 def pa : Parser Bytes := exact walkTestAction
-def pu : Parser Bytes := exact walkTestAuth
+/-- the harness-defined variable-length auth (type id 1, registered by the C15 harness): the
+payload is arbitrary, `Bytes()` is the type id followed by the payload -/
+def walkVarAuth (b : Bytes) : Option Bytes :=
+  match b with
+  | t :: _ => if t = 1 then some [] else none
+  | [] => none
+
+def pu : Parser Bytes :=
+  { parse := fun b => match (exact walkTestAuth).parse b with
+      | some a => some a
+      | none => (exact walkVarAuth).parse b
+    bytes := id }
 
 def hexOf (s : String) : Option Bytes := parseHex s
 
